@@ -149,3 +149,72 @@ theorem C05_model_is_source :
   ⟨ShuntingTie.pushOper_eq, ShuntingTie.finalize_eq, ShuntingTie.pushMetric_eq, ShuntingTie.pushConstClip_eq,
    ShuntingTie.build_eq_source, ShuntingTie.hoSrc_toks, ShuntingTie.hoBuild_eq_source, ShuntingTie.hoPush_isSome,
    ShuntingTie.nextToken_eq, ShuntingTie.tokenize_eq_source⟩
+
+/-! ## History-freedom of `build` (builder objects that are built, composed further and built again) -/
+
+theorem C05_stepLive_fresh (s : List LiveB) (e : BEv) :
+    ((stepLive s e).1.map (·.tree) = (stepFresh (s.map (·.tree)) e).1) ∧
+    (stepLive s e).2 = (stepFresh (s.map (·.tree)) e).2 := by
+  have hk : Extracted.Formula.hoBuilderKeepsOnlyTokens = true := rfl
+  cases e with
+  | start n => simp [stepLive, stepFresh]
+  | pushEng i o n =>
+    simp only [stepLive, stepFresh, List.getElem?_map]
+    cases s[i]? <;> simp [LiveB.derive]
+  | pushConst i o c =>
+    simp only [stepLive, stepFresh, List.getElem?_map]
+    cases s[i]? <;> simp [LiveB.derive]
+  | pushB i o j =>
+    simp only [stepLive, stepFresh, List.getElem?_map]
+    cases s[i]? <;> cases s[j]? <;> simp [LiveB.derive]
+  | un i u =>
+    simp only [stepLive, stepFresh, List.getElem?_map]
+    cases s[i]? <;> simp [LiveB.derive]
+  | build i z =>
+    simp only [stepLive, stepFresh, List.getElem?_map, hk, if_true]
+    cases s[i]? <;> simp
+
+/-- Whatever sequence of compositions (every operator / method, a built builder as left or right operand, any depth)
+and builds a program performs on builder objects — also building one twice, or a derived builder before its
+original — every `build` hands out exactly `hoBuild` of THAT builder's own expression tree: nothing of an earlier
+build survives on the object or travels into the builders derived from it.  Rests on the extracted fact
+`hoBuilderKeepsOnlyTokens` (the builder classes keep no state besides the token deque). -/
+def C05_history_free_statement : Prop := ∀ es : List BEv, runLive [] es = runFresh [] es
+
+theorem C05_history_free : C05_history_free_statement := by
+  have h : ∀ (es : List BEv) (s : List LiveB), runLive s es = runFresh (s.map (·.tree)) es := by
+    intro es
+    induction es with
+    | nil => intro s; rfl
+    | cons e es ih =>
+      intro s
+      obtain ⟨h1, h2⟩ := C05_stepLive_fresh s e
+      simp only [runLive, runFresh, ih, h1, h2]
+  intro es
+  exact h es []
+
+/-- Together with `C05_api`: every engine built anywhere in a history computes its own tree. -/
+theorem C05_history_built_programs (es : List BEv) :
+    ∀ p ∈ runLive [] es, ∃ (h : HO) (z : Bool), p = hoBuild h z ∧ ∀ env, run p env = evalAst (fun _ => z) env h.ast := by
+  rw [C05_history_free]
+  have h : ∀ (es : List BEv) (s : List HO), ∀ p ∈ runFresh s es, ∃ (h : HO) (z : Bool), p = hoBuild h z := by
+    intro es
+    induction es with
+    | nil => intro s p hp; simp [runFresh] at hp
+    | cons e es ih =>
+      intro s p hp
+      simp only [runFresh, List.mem_append] at hp
+      rcases hp with hp | hp
+      · cases e <;> simp only [stepFresh] at hp <;> (try split at hp) <;> simp at hp
+        exact ⟨_, _, hp⟩
+      · exact ih _ p hp
+  intro p hp
+  obtain ⟨t, z, rfl⟩ := h es [] p hp
+  exact ⟨t, z, rfl, fun env => C05_api t z env⟩
+
+-- non-vacuity: `x = e1 + e2; x.build(); y = x * 2; y.build(); x.build()`
+example : runLive [] [.start 1, .pushEng 0 .add 2, .build 1 false, .pushConst 1 .mul 2, .build 2 false, .build 1 true] =
+    [hoBuild (.pushEng (.start 1) .add 2) false, hoBuild (.pushConst (.pushEng (.start 1) .add 2) .mul 2) false,
+     hoBuild (.pushEng (.start 1) .add 2) true] := by
+  rw [C05_history_free]; rfl
+
